@@ -101,7 +101,7 @@ class Element(Component, Matter):
         else:
             raise Exception('Unrecognized expr', expr)
         self.component_mass = self.mass
-        self.composite_mass = self.mass
+        self.composite_mass = self.proportion*self.mass  # one formula unit holds `proportion` atoms
         Matter._norm(self)
 
     def __mul__(self, other:float):
